@@ -200,6 +200,8 @@ func c15(w *core.World, r *core.Report) {
 
 	r.Rule("R15.6", "configuration: renew interval <= lease timeout / 3 after the last write of either field", 2)
 	ruleLeaseConfig(w, r)
+	r.Rule("R15.12", "the lease period of the Redis cluster object is written by its constructor only", 1)
+	ruleLeaseTtlFixedAtConstruction(w, r)
 }
 
 func luaPathsOf(r *core.Report, cons, script string, pos token.Pos) ([]*core.LuaPath, string) {
